@@ -82,7 +82,7 @@ def main():
                 continue
             shrunk = False
             fields = getattr(mod, 'SHRINK_FIELDS', None)
-            if fields:
+            if fields or hasattr(mod, 'shrink'):
                 def still(c, _sig=sig):
                     return any(f.sig == _sig for f in mod.rejudge(c))
                 try:
@@ -90,7 +90,10 @@ def main():
                     if 'history' in small:
                         from vlib import history
                         small = history.shrink_history(small, still)
-                    small = findings.shrink_xml_fields(small, fields, still)
+                    if hasattr(mod, 'shrink'):
+                        small = mod.shrink(small, still)
+                    if fields:
+                        small = findings.shrink_xml_fields(small, fields, still)
                     if small != rec['case']:
                         fs = [f for f in mod.rejudge(small) if f.sig == sig]
                         if fs:
